@@ -40,9 +40,14 @@ ASSUMPTIONS = [
     "the oracle is demanded for job rows the recorder can produce (RecInv, proved an invariant of record_job_start/record_job_end in "
     "the model and re-checked on every real-run database); other row shapes are used for the model/implementation tie only",
     "one value type name marks errors (redun.ErrorValue), the same in query.py and calc_status (checked by the translator)",
+    "every job / execution row written by the REAL recorder (final databases and kill points) is judged, whatever its shape; a row "
+    "outside RecInv is in addition reported as a correspondence break (the recorder model no longer describes the code)",
 ]
 RULE = ("databases of two kinds: (a) real scheduler runs of generated workflows (done, failed, caught-failed, CSE-collapsed twins of "
-        "succeeding and of failing jobs, cache hits on a second execution, jobs and whole executions whose end is never recorded) and "
+        "succeeding and of failing jobs, cache hits on a second execution incl. ultimate-reduction hits of check_valid=shallow tasks and CSE "
+        "hits on finished jobs, failing siblings, workflows aborted by a scheduler task while hits are in flight, jobs and whole "
+        "executions whose end is never recorded), observed after EVERY writing commit of the real backend (kill points: the state a "
+        "killed process leaves; a copy is examined whenever a row shape not yet examined in the run appears) and "
         "(b) raw sqlite rows covering every combination of end_time NULL x cached x {no call_hash, dangling call_hash, call node with "
         "missing value, ErrorValue, other value} with executions on top; for every database all 15 non-empty status subsets (plus "
         "permuted/duplicated lists and the empty list) are filtered for jobs and executions through CallGraphQuery and compared with "
@@ -70,10 +75,27 @@ def _tasks():
     if _TASKS is not None:
         return _TASKS
     from redun import catch, task
+    from redun.scheduler import scheduler_task
 
     @task(namespace="c33v")
     def ok(x):
         return x + 1
+
+    @task(namespace="c33v", check_valid="shallow")
+    def inc_sh(x):
+        # a backend hit on this task is an ultimate reduction: the cache hit already knows its CallNode
+        return x + 1
+
+    @task(namespace="c33v")
+    def again(y, x):
+        # ok(x) already finished in this execution (it produced y): the new call is a CSE hit on a finished job
+        return ok(x)
+
+    @scheduler_task(namespace="c33v")
+    def kill(scheduler, parent_job, sexpr, x):
+        # abort the whole workflow (the device of redun/tests/test_db_query.py::test_status): jobs that are in
+        # flight never get their end recorded
+        scheduler.reject_job(None, RuntimeError("workflow killed"))
 
     @task(namespace="c33v")
     def slow_ok(x):
@@ -121,6 +143,12 @@ def _tasks():
                 es = [wa("ok", x), wb("ok", x)]
             elif kind == "twin_boom":
                 es = [wa("boom", x), wb("boom", x)]
+            elif kind == "shallow":
+                es = [inc_sh(x)]
+            elif kind == "cse_done":
+                es = [again(ok(x), x)]
+            elif kind == "kill":
+                es = [kill(x)]
             else:
                 es = [hang(x)]
             # every catch guards exactly one failing sub-expression
@@ -135,18 +163,55 @@ def gen_spec(rng):
     n = rng.choice([1, 2, 2, 3, 4])
     spec = []
     for _ in range(n):
-        kind = rng.choice(["ok", "ok", "boom", "twin_ok", "twin_boom", "twin_boom", "hang"])
+        kind = rng.choice(["ok", "ok", "boom", "twin_ok", "twin_boom", "twin_boom", "hang", "shallow", "shallow", "cse_done",
+                           "cse_done", "kill"])
         spec.append((kind, rng.randrange(3), rng.random() < 0.7))
     return tuple(spec)
 
 
-def real_run_db(rng, path):
-    """Populate the database at `path` by real scheduler runs."""
+SHAPE_SQL = """
+select distinct j.end_time is null, j.cached, j.call_hash is null, c.call_hash is null, v.value_hash is null,
+       coalesce(v.type = ?, 0), exists (select 1 from execution e where e.job_id = j.id)
+from job j left join call_node c on c.call_hash = j.call_hash left join value v on v.value_hash = c.value_hash
+"""
+
+
+class KillPoints:
+    """Every durable state a kill of the recording process can leave behind is the database right after one of its
+    commits. After every writing commit of the real backend the row shapes present are read (one query); when a shape
+    (or a shape of an execution's root job) shows up that no database examined so far in this run contains, the sqlite
+    file is copied and examined like a final database."""
+
+    def __init__(self, backend, path, seen, keep_dir):
+        from ctl_db import CommitTap
+        self.path, self.seen, self.keep_dir, self.snaps, self.commits = path, seen, keep_dir, [], 0
+        self.con = sqlite3.connect(self.path)
+        self.tap = CommitTap(backend, on_commit=self.on_commit)
+
+    def on_commit(self, n):
+        self.commits += 1
+        shapes = set(self.con.execute(SHAPE_SQL, (ERR,)).fetchall())
+        self.con.rollback()         # end the read transaction: no lock is held between commits
+        new = shapes - self.seen
+        if new:
+            self.seen |= new
+            p = os.path.join(self.keep_dir, "kill_%s_%d.db" % (os.path.basename(self.path), n))
+            shutil.copyfile(self.path, p)
+            self.snaps.append((n, p))
+
+    def remove(self):
+        self.tap.remove()
+        self.con.close()
+
+
+def real_run_db(rng, path, seen=None, keep_dir=None, fixed_runs=None):
+    """Populate the database at `path` by real scheduler runs. Returns (description, kill-point snapshots)."""
     from redun import Scheduler
     from redun.backends.db import RedunBackendDb
     main = _tasks()["main"]
     backend = RedunBackendDb(db_uri="sqlite:///" + path)
     backend.load(migrate=False)
+    kp = KillPoints(backend, path, seen, keep_dir) if seen is not None else None
     orig_end = backend.record_job_end
     crash_root = [False]
 
@@ -159,25 +224,33 @@ def real_run_db(rng, path):
     backend.record_job_end = record_job_end
     desc = []
     try:
-        specs = [gen_spec(rng) for _ in range(rng.choice([1, 2, 2, 3]))]
-        runs = list(specs)
-        if rng.random() < 0.7:
-            runs.append(rng.choice(specs))          # repeat: cache hits
+        if fixed_runs is not None:
+            runs = list(fixed_runs)
+        else:
+            specs = [gen_spec(rng) for _ in range(rng.choice([1, 2, 2, 3]))]
+            runs = list(specs)
+            if rng.random() < 0.7:
+                runs.append(rng.choice(specs))          # repeat: cache hits
         for i, spec in enumerate(runs):
-            crash_root[0] = rng.random() < 0.15
-            salt = 0 if rng.random() < 0.8 else i
+            if isinstance(spec, dict):          # replay of a recorded description
+                crash_root[0], salt, spec = spec["crash_root"], spec["salt"], tuple(tuple(x) for x in spec["spec"])
+            else:
+                crash_root[0] = fixed_runs is None and rng.random() < 0.15
+                salt = 0 if (fixed_runs is not None or rng.random() < 0.8) else i
             try:
                 # a fresh scheduler per execution: one that raised may still have events of in-flight jobs queued
                 Scheduler(backend=backend).run(main(spec, salt))
                 out = "ok"
-            except ValueError:
-                out = "ValueError"
+            except (ValueError, RuntimeError) as e:
+                out = type(e).__name__
             desc.append([list(map(list, spec)), salt, crash_root[0], out])
     finally:
         backend.record_job_end = orig_end
+        if kp is not None:
+            kp.remove()
         backend.session.close()
         backend.engine.dispose()
-    return desc
+    return desc, (kp.snaps if kp else []), (kp.commits if kp else 0)
 
 
 TS = "2024-01-02 03:04:05.678901"
@@ -236,7 +309,9 @@ def abstract_db(path):
     return jobs, calls, values, execs
 
 
-def status_lists(rng):
+def status_lists(rng, full=True):
+    if not full:        # kill-point snapshots: every single status, one list
+        return [[x] for x in STATUSES] + [["RUNNING", "DONE"], ["RUNNING", "FAILED", "DONE"]]
     subsets = [list(c) for n in range(1, 5) for c in itertools.combinations(STATUSES, n)]
     extra = []
     for _ in range(3):
@@ -321,9 +396,9 @@ def rec_inv(shape):
     return (e == (l == "noCall")) and (not e or not c) and l in ("noCall", "error", "other")
 
 
-def check_db(ctx, kind, desc, path, reply_for):
+def check_db(ctx, kind, desc, path, reply_for, full=True):
     adb = abstract_db(path)
-    qs = status_lists(ctx.rng)
+    qs = status_lists(ctx.rng, full)
     line, inv = model_line(adb, qs)
     real = real_queries(path, qs)
     shapes = shape_of(adb)
@@ -353,12 +428,14 @@ def compare_and_judge(ctx, d, reply):
     if real["dups"]:
         ctx.mismatch("query returned duplicate records", case, "distinct", repr(real["dups"])[:300])
     # ---- property oracle on the implementation (recorder-producible rows only)
-    if d["kind"] == "real-run":
+    from_recorder = d["kind"] in ("real-run", "kill-point")
+    if from_recorder:
         bad = {j: s for j, s in shapes.items() if not rec_inv(s)}
         if bad:
             ctx.mismatch("the real recorder produced a job row outside RecInv (model invariant does not describe the code)", case,
                          "RecInv", repr(bad)[:400])
-    ok_jobs = [j for j, s in shapes.items() if rec_inv(s)]
+    # rows written by the real recorder are all judged; hand-built rows only if the recorder can produce their shape
+    ok_jobs = [j for j, s in shapes.items() if from_recorder or rec_inv(s)]
     single_bad = set()
     for multi in (False, True):         # single statuses first; a list is reported only if no single status explains it
         for ss, rr in zip(qs, real["jq"]):
@@ -385,7 +462,7 @@ def compare_and_judge(ctx, d, reply):
             if not ss or rr == "!AssertionError" or not set(ss) <= set(EXEC_DOMAIN) or (len(set(ss)) > 1) != multi:
                 continue
             for e, j in adb[3]:
-                if j not in shapes or not rec_inv(shapes[j]):
+                if j not in shapes or not (from_recorder or rec_inv(shapes[j])):
                     continue
                 disp = real["edisp"].get(e)
                 if (e in rr) == (disp in ss):
@@ -427,16 +504,36 @@ def run(ctx, only=None):
 
         p = fresh()
         todo.append(check_db(ctx, "real-run", corpus_f11(p), p, None))
+        seen, kills, commits = set(), [], 0
+
+        def real_case(fixed=None):
+            nonlocal commits
+            p = fresh()
+            desc, snaps, nc = real_run_db(ctx.rng, p, seen, tmp, fixed)
+            commits += nc
+            todo.append(check_db(ctx, "real-run", desc, p, None))
+            for k, sp in snaps:
+                kills.append(check_db(ctx, "kill-point", {"runs": desc, "killed_after_commit": k}, sp, None, full=False))
+                os.remove(sp)
+            os.remove(p)
+
+        # corpus: cache hits that already know their CallNode (backend hit of a check_valid="shallow" task; CSE hit on a
+        # job that finished in the same execution) while the workflow is aborted / the process is killed
+        real_case([(("shallow", 1, False), ("ok", 2, False)),
+                   (("shallow", 1, False), ("kill", 0, False)),
+                   (("cse_done", 2, False), ("kill", 0, False)),
+                   (("shallow", 1, True), ("cse_done", 2, True), ("boom", 1, False))])
         p = fresh()
         todo.append(check_db(ctx, "raw-shapes", raw_shape_db(ctx.rng, p, exhaustive=True), p, None))
         quick = ctx.tier == "quick"
-        n_real, n_raw = (8, 70) if quick else (80, 1100)
+        n_real, n_raw = (5, 30) if quick else (80, 1000)
         if ctx.search_boost > 1:            # after a proof/correspondence break: search harder, within the time budget
             n_real, n_raw = (int(n_real * 2), int(n_raw * 2)) if quick else (int(n_real * 1.5), int(n_raw * 1.5))
         for _ in range(n_real):
-            p = fresh()
-            todo.append(check_db(ctx, "real-run", real_run_db(ctx.rng, p), p, None))
-            os.remove(p)
+            real_case()
+        todo.extend(kills)
+        ctx.count("kill_points", "commits_observed", commits)
+        ctx.count("kill_points", "examined(new row shape)", len(kills))
         for _ in range(n_raw):
             p = fresh()
             todo.append(check_db(ctx, "raw-shapes", raw_shape_db(ctx.rng, p), p, None))
@@ -500,8 +597,41 @@ def build_from_abstract(path, jobs, calls, values, execs):
     con.close()
 
 
+def replay_runs(ctx, c):
+    """Re-run the recorded workflow executions on the real code; examine the final database and every kill point."""
+    from redun.backends.db import RedunBackendDb
+    import redun.logging  # noqa: F401
+    logging.getLogger("redun").setLevel(logging.CRITICAL)
+    desc = c["desc"]["runs"] if isinstance(c["desc"], dict) else c["desc"]
+    if desc and desc[0] == "F11 corpus":
+        runs = [dict(spec=desc[1], salt=0, crash_root=False)] * 2
+    else:
+        runs = [dict(spec=r[0], salt=r[1], crash_root=r[2]) for r in desc]
+    print("replay: re-running %d workflow execution(s) on the real code, examining the final database and every kill point" % len(runs))
+    for r in runs:
+        print("  main(spec=%s, salt=%s)%s" % (r["spec"], r["salt"], "  [end of root job never recorded]" if r["crash_root"] else ""))
+    tmp = tempfile.mkdtemp(prefix="c33_")
+    try:
+        path = os.path.join(tmp, "replay.db")
+        b = RedunBackendDb(db_uri="sqlite:///" + path)
+        b.load()
+        b.session.close()
+        b.engine.dispose()
+        d2, snaps, nc = real_run_db(ctx.rng, path, set(), tmp, runs)
+        todo = [check_db(ctx, "real-run", d2, path, None)]
+        todo += [check_db(ctx, "kill-point", {"runs": d2, "killed_after_commit": k}, sp, None, full=False) for k, sp in snaps]
+        for d, reply in zip(todo, ctx.model("C33", [d["line"] for d in todo])):
+            compare_and_judge(ctx, d, reply)
+            ctx.case(key=("replay", d["kind"], tuple(sorted(d["shapes"].values()))), sample={"replayed": True, "kind": d["kind"]})
+        print("  %d commits, %d kill points examined, row shapes: %s" % (nc, len(snaps), sorted(set(todo[0]["shapes"].values()))))
+    finally:
+        shutil.rmtree(tmp, ignore_errors=True)
+
+
 def replay(ctx, case):
     c = case.get("case") or {}
+    if isinstance(c, dict) and c.get("kind") in ("real-run", "kill-point") and c.get("desc"):
+        return replay_runs(ctx, c)
     if not isinstance(c, dict) or "jobs" not in c:
         print("replay file has no database rows; running the normal check")
         return run(ctx)
@@ -516,7 +646,7 @@ def replay(ctx, case):
         b.session.close()
         b.engine.dispose()
         build_from_abstract(path, c["jobs"], c["calls"], c["values"], c["execs"])
-        d = check_db(ctx, "replay", c.get("desc"), path, None)
+        d = check_db(ctx, c.get("kind") if c.get("kind") in ("real-run", "kill-point") else "replay", c.get("desc"), path, None)
         print("replay database: %d jobs, %d executions; filter in question: %s" % (len(c["jobs"]), len(c["execs"]), c.get("filter")))
         print("  displayed:", d["real"]["disp"])
         for ss, rr in zip(d["qs"], d["real"]["jq"]):
